@@ -7,6 +7,7 @@
 import WR.C06.ParserLemmas
 namespace WR.Props.C06
 open WR.C06 List
+set_option linter.unusedSimpArgs false
 
 /-! ## §3.3 preprocessing -/
 
@@ -25,7 +26,7 @@ theorem preprocess_idempotent (s : Str) : preprocess (preprocess s) = preprocess
 theorem preprocess_spec (s : Str) (c : Char) :
     preprocess ('\r' :: '\n' :: s) = '\n' :: preprocess s ∧
     preprocess ('\x0c' :: s) = '\n' :: preprocess s ∧
-    preprocess ('\x00' :: s) = '�' :: preprocess s ∧
+    preprocess ('\x00' :: s) = '\uFFFD' :: preprocess s ∧
     (isRaw c = false → preprocess (c :: s) = c :: preprocess s) ∧
     (∀ d, d ≠ '\n' → preprocess ('\r' :: d :: s) = '\n' :: preprocess (d :: s)) ∧
     preprocess ['\r'] = ['\n'] := by
@@ -85,9 +86,8 @@ theorem pieces_flatten (q : Quirks) (total f : Nat) (inp : Str) (h : inp.length 
     unfold pieces
     cases hr : (step q total inp).rest? with
     | none =>
-      cases inp with
-      | nil => simp
-      | cons c cs => sorry
+      have := step_eof q total inp hr
+      subst this; simp
     | some r =>
       have hp := step_progress q total inp r hr
       have ⟨h1, h2⟩ := ih r (by have := hp.2; omega)
@@ -102,5 +102,246 @@ theorem pieces_flatten (q : Quirks) (total f : Nat) (inp : Str) (h : inp.length 
         · rw [hl, ← ht]; simp
           intro h0; subst h0; have := hp.2; simp at ht; subst ht; omega
         · exact h2 p hp'
+
+
+/-- the source texts of the successive tokens tile the input: nothing skipped, nothing read twice,
+no empty token (flat token stream; the nesting levels hand over contiguous tails, see
+`block_rest_is_tail`, and the top level reaches the end, see `tokenize_consumes_all`) -/
+theorem spans_partition_flat (q : Quirks) (s : Str) :
+    (pieces q s.length (s.length + 1) s).flatten = s ∧ ∀ p ∈ pieces q s.length (s.length + 1) s, p ≠ [] :=
+  pieces_flatten q s.length (s.length + 1) s (by omega)
+
+/-- the representation kept in a numeric token is exactly the source text it was read from -/
+theorem number_repr_is_source (inp repr rest : Str) (isInt : Bool)
+    (h : consumeNumber inp = some (repr, isInt, rest)) : repr ++ rest = inp ∧ repr ≠ [] :=
+  consumeNumber_append inp repr rest isInt h
+
+example : consumeNumber ['-', '1', '.', '5', 'e', '3', 'x'] = some (['-', '1', '.', '5', 'e', '3'], false, ['x']) := by
+  decide
+
+/-! ## recovery at the character level (P2) -/
+
+/-- a string ends at its first unescaped quote: exactly `s` and the quote are consumed -/
+theorem string_extent (quote : Char) (s r : Str) (f : Nat) (hf : s.length < f)
+    (hs : ∀ c ∈ s, c ≠ quote ∧ c ≠ '\n' ∧ c ≠ '\\') :
+    consumeString quote f (s ++ quote :: r) = (s, .closed, r) := by
+  induction s generalizing f with
+  | nil => cases f <;> simp_all [consumeString]
+  | cons c cs ih =>
+    cases f with
+    | zero => simp at hf
+    | succ f =>
+      have hc := hs c (by simp)
+      have := ih f (by simp at hf; omega) (fun x hx => hs x (by simp [hx]))
+      simp_all [consumeString]
+
+/-- a bad string stops BEFORE the newline: the newline is left for the next token -/
+theorem bad_string_stops_before_newline (quote : Char) (s r : Str) (f : Nat) (hf : s.length < f)
+    (hq : quote ≠ '\n') (hs : ∀ c ∈ s, c ≠ quote ∧ c ≠ '\n' ∧ c ≠ '\\') :
+    consumeString quote f (s ++ '\n' :: r) = (s, .newline, '\n' :: r) := by
+  induction s generalizing f with
+  | nil => cases f <;> simp_all [consumeString] <;> grind
+  | cons c cs ih =>
+    cases f with
+    | zero => simp at hf
+    | succ f =>
+      have hc := hs c (by simp)
+      have := ih f (by simp at hf; omega) (fun x hx => hs x (by simp [hx]))
+      simp_all [consumeString]
+
+example : ∀ c ∈ (['a', ' ', ';'] : Str), c ≠ '"' ∧ c ≠ '\n' ∧ c ≠ '\\' := by decide
+
+/-- the remnants of a bad url end just after the first `)` (no escapes in between) -/
+theorem bad_url_remnants_extent (s r : Str) (f : Nat) (hf : s.length < f)
+    (hs : ∀ c ∈ s, c ≠ ')' ∧ c ≠ '\\') :
+    badUrlRemnants Quirks.spec f (s ++ ')' :: r) = r := by
+  induction s generalizing f with
+  | nil => cases f <;> simp_all [badUrlRemnants]
+  | cons c cs ih =>
+    cases f with
+    | zero => simp at hf
+    | succ f =>
+      have hc := hs c (by simp)
+      have := ih f (by simp at hf; omega) (fun x hx => hs x (by simp [hx]))
+      simp_all [badUrlRemnants]
+
+/-- … an escaped `)` does not end them, an escaped backslash does not hide the `)` after it -/
+theorem bad_url_remnants_escapes (r : Str) (f : Nat) :
+    badUrlRemnants Quirks.spec (f + 2) ('\\' :: ')' :: r) = badUrlRemnants Quirks.spec (f + 1) r ∧
+    badUrlRemnants Quirks.spec (f + 3) ('\\' :: '\\' :: ')' :: r) = r := by
+  constructor <;> simp [badUrlRemnants, Quirks.spec, validEscTail, consumeEscape, isHex, isDigit]
+
+/-- a closing bracket is a one-code-point token of its own -/
+theorem closer_is_one_code_point (q : Quirks) (total : Nat) (c : Char) (cs : Str)
+    (h : c = '}' ∨ c = ']' ∨ c = ')') : step q total (c :: cs) = .close c cs := by
+  rcases h with rfl | rfl | rfl <;>
+    simp [step, stepPunct, isWs, startsURange, startsIdent, isNameStart, isLetter, consumeNumber,
+      takeSign, WR.C06.takeWhile, takeFrac, isDigit] <;>
+    (split <;> simp_all) <;> (rename_i h; obtain ⟨h1, _⟩ := h; subst h1; intro h; rcases h with h | h <;> cases h)
+
+
+/-- a comment ends at its first `*/` (body without `*`) -/
+theorem comment_extent (b r : Str) (hb : ∀ c ∈ b, c ≠ '*') :
+    consumeComment (b ++ '*' :: '/' :: r) = some (b, r) := by
+  induction b with
+  | nil => simp [consumeComment]
+  | cons c cs ih =>
+    have hc := hb c (by simp)
+    have := ih (fun x hx => hb x (by simp [hx]))
+    rw [List.cons_append, consumeComment.eq_def]
+    simp_all
+
+/-! ### the three places where the code departs from the specification (negation witnesses:
+the same inputs are replayed against the real code by the harness, `EdgeCases`) -/
+
+/-- F06-2, `a{/*c`: the specification ends the input inside the block … -/
+theorem F06_2_spec : Tok.beqList (tokenizePre Quirks.spec ['a', '{', '/', '*', 'c'])
+    [.ident 0 ['a'], .block 1 .curly [.comment 2 ['c']]] = true := by decide
+/-- … the code re-tokenizes the comment body after the block -/
+theorem F06_2_code : Tok.beqList (tokenizePre { commentEof := true } ['a', '{', '/', '*', 'c'])
+    [.ident 0 ['a'], .block 1 .curly [.comment 2 ['c']], .lit 3 ['*'], .ident 4 ['c']] = true := by decide
+
+/-- F06-3, `url(" \\\\)b`: the bad url ends at the `)` after the escaped backslash … -/
+theorem F06_3_spec : Tok.beqList (tokenizePre Quirks.spec ['u', 'r', 'l', '(', 'a', '"', '\\', '\\', ')', 'b'])
+    [.error 0 'u', .ident 9 ['b']] = true := by decide
+/-- … the code swallows the identifier that follows -/
+theorem F06_3_code : Tok.beqList (tokenizePre { badUrlPair := true } ['u', 'r', 'l', '(', 'a', '"', '\\', '\\', ')', 'b'])
+    [.error 0 'u'] = true := by decide
+
+/-- F06-4, `url(a\<newline>)`: an invalid escape makes the url a bad url … -/
+theorem F06_4_spec : Tok.beqList (tokenizePre Quirks.spec ['u', 'r', 'l', '(', 'a', '\\', '\n', ')'])
+    [.error 0 'u'] = true := by decide
+/-- … the code keeps the backslash as a url character -/
+theorem F06_4_code : Tok.beqList (tokenizePre { urlBackslashNl := true } ['u', 'r', 'l', '(', 'a', '\\', '\n', ')'])
+    [.url 0 ['a', '\\'] false] = true := by decide
+
+/-! ## recovery at the component-value level (P1): declarations, at-rules, qualified rules -/
+
+/-- whatever a list-level consumer leaves is a contiguous tail of what it was given: a malformed
+construct can neither duplicate nor re-order the tokens that follow it -/
+theorem consumers_leave_a_tail (m : Mode) (t : Tok) (ts : List Tok) : (consumeOne m t ts).2 <:+ ts :=
+  consumeOne_suffix m t ts
+
+/-- the fuel `length` of the list loops is never exhausted -/
+theorem parse_list_total (m : Mode) (c w : Bool) (f : Nat) (ts : List Tok) (h : ts.length ≤ f) :
+    parseListF m c w f ts = parseList m c w ts :=
+  parseListF_fuel m c w f ts h
+
+/-- a declaration — well formed or not — consumes exactly the tokens up to the next top-level `;`:
+the declarations after it are parsed as if it were not there -/
+theorem declaration_list_recovery (c w : Bool) (first semi : Tok) (d r : List Tok)
+    (hf : startsDecl first) (hd : noSemi d) (hs : isSemi semi = true) :
+    parseList .decls c w (first :: d ++ semi :: r)
+      = parseDeclaration first d :: parseList .decls c w r := by
+  obtain ⟨h1, h2, h3⟩ := hf
+  rw [List.cons_append, parseList_cons _ _ _ _ _ h1]
+  have hsp := splitSemi_append d r semi hd hs
+  cases first <;> simp_all [consumeOne, consumeDeclInList]
+
+/-- … and the last declaration runs to the end of the input -/
+theorem declaration_list_eof (c w : Bool) (first : Tok) (d : List Tok)
+    (hf : startsDecl first) (hd : noSemi d) :
+    parseList .decls c w (first :: d) = [parseDeclaration first d] := by
+  obtain ⟨h1, h2, h3⟩ := hf
+  rw [parseList_cons _ _ _ _ _ h1]
+  have hsp := splitSemi_eof d hd
+  cases first <;> simp_all [consumeOne, consumeDeclInList, parseList, parseListF]
+
+example : startsDecl (Tok.num 0 ['1'] true) ∧ noSemi [Tok.lit 1 [':'], Tok.ident 2 ['x']] := by
+  refine ⟨⟨rfl, rfl, by intro p kw h; cases h⟩, ?_⟩
+  intro t ht
+  simp at ht
+  rcases ht with rfl | rfl <;> rfl
+
+/-- an at-rule ends at its first top-level `{}` block … -/
+theorem at_rule_ends_at_block (pos p : Nat) (kw : Str) (pre r args : List Tok) (hp : noSemiNoCurly pre) :
+    consumeAtRule pos kw (pre ++ Tok.block p .curly args :: r) = (.atrule pos kw pre (some args), r) := by
+  simp [consumeAtRule, atRuleBody_curly pre r p args hp]
+
+/-- … or at its first top-level `;` … -/
+theorem at_rule_ends_at_semicolon (pos : Nat) (kw : Str) (pre r : List Tok) (semi : Tok)
+    (hs : isSemi semi = true) (hp : noSemiNoCurly pre) :
+    consumeAtRule pos kw (pre ++ semi :: r) = (.atrule pos kw pre none, r) := by
+  simp [consumeAtRule, atRuleBody_semi pre r semi hs hp]
+
+/-- … or at the end of the input -/
+theorem at_rule_ends_at_eof (pos : Nat) (kw : Str) (pre : List Tok) (hp : noSemiNoCurly pre) :
+    consumeAtRule pos kw pre = (.atrule pos kw pre none, []) := by
+  simp [consumeAtRule, atRuleBody_eof pre hp]
+
+/-- a qualified rule ends at its `{}` block (`;` does not end it at the top level) -/
+theorem qualified_rule_ends_at_block (first : Tok) (p : Nat) (pre r args : List Tok)
+    (hf : isCurly first = false) (hp : noCurly pre) :
+    consumeQualifiedRule first (pre ++ Tok.block p .curly args :: r) false
+      = (.qrule first.pos (first :: pre) args, r) := by
+  have := qruleBody_curly false pre r p args (fun t ht => ⟨hp t ht, by simp⟩)
+  unfold consumeQualifiedRule
+  cases first <;> simp_all [isCurly]
+  rename_i k _; cases k <;> simp_all [isCurly]
+
+/-- rule lists: after an at-rule / a qualified rule the list goes on exactly behind its block -/
+theorem rule_list_recovery (c w : Bool) (first : Tok) (p : Nat) (pre r args : List Tok)
+    (hf : startsDecl first) (hc : isCurly first = false) (hp : noCurly pre) :
+    parseList .rules c w (first :: pre ++ Tok.block p .curly args :: r)
+      = .qrule first.pos (first :: pre) args :: parseList .rules c w r := by
+  obtain ⟨h1, h2, h3⟩ := hf
+  rw [List.cons_append, parseList_cons _ _ _ _ _ h1]
+  have := qualified_rule_ends_at_block first p pre r args hc hp
+  cases first <;> simp_all [consumeOne, consumeRule]
+
+theorem rule_list_at_rule (c w : Bool) (pos p : Nat) (kw : Str) (pre r args : List Tok)
+    (hp : noSemiNoCurly pre) :
+    parseList .rules c w (Tok.atkw pos kw :: pre ++ Tok.block p .curly args :: r)
+      = .atrule pos kw pre (some args) :: parseList .rules c w r := by
+  rw [List.cons_append, parseList_cons _ _ _ _ _ rfl]
+  simp [consumeOne, consumeRule, at_rule_ends_at_block pos p kw pre r args hp]
+
+example : noSemiNoCurly [Tok.ws 1 [' '], Tok.ident 2 ['x']] ∧ noCurly [Tok.lit 0 [';']] := by
+  constructor
+  · intro t ht; simp at ht; rcases ht with rfl | rfl <;> exact ⟨rfl, rfl⟩
+  · intro t ht; simp at ht; subst ht; rfl
+
+
+/-- block contents: a declaration or nested rule ends at the first top-level `;` … -/
+theorem blocks_content_ends_at_semicolon (first semi : Tok) (d r : List Tok)
+    (hc : isCurly first = false) (hd : noSemiNoCurly d) (hs : isSemi semi = true) :
+    (consumeBlocksContent first (d ++ semi :: r)).2 = r := by
+  have key := splitBlockContent_semi d r semi hd hs
+  unfold consumeBlocksContent
+  simp only [hc, key]
+  split <;> simp
+
+/-- … or just after the first top-level `{}` block (nested rule, or a declaration holding a block) -/
+theorem blocks_content_ends_at_block (first : Tok) (p : Nat) (d r args : List Tok)
+    (hc : isCurly first = false) (hd : noSemiNoCurly d) :
+    (consumeBlocksContent first (d ++ Tok.block p .curly args :: r)).2 = r := by
+  have key := splitBlockContent_curly d r p args hd
+  unfold consumeBlocksContent
+  simp only [hc, key]
+  split <;> simp
+
+/-- the nested-rule fallback: what is not a declaration and runs into a `{}` block is the
+qualified rule made of exactly those tokens -/
+theorem blocks_content_nested_rule (first : Tok) (p : Nat) (d r args : List Tok)
+    (hc : isCurly first = false) (hs : isSemi first = false) (hd : noSemiNoCurly d)
+    (hnd : ∀ q n v i, parseDeclaration first (d ++ [Tok.block p .curly args]) ≠ .decl q n v i) :
+    consumeBlocksContent first (d ++ Tok.block p .curly args :: r)
+      = (.qrule first.pos (first :: d) args, r) := by
+  have key := splitBlockContent_curly d r p args hd
+  have hq := qruleBody_curly true d [] p args (fun t ht => ⟨(hd t ht).2, fun _ => (hd t ht).1⟩)
+  unfold consumeBlocksContent
+  simp only [hc, key]
+  split
+  · rename_i q n v i heq
+    exact absurd heq (hnd q n v i)
+  · simp only [Bool.false_eq_true, ↓reduceIte, List.append_nil]
+    unfold consumeQualifiedRule
+    simp only [hs, Bool.and_false, Bool.false_eq_true, ↓reduceIte]
+    cases first <;> simp_all [isCurly]
+    rename_i k _; cases k <;> simp_all [isCurly]
+
+example : ∀ q n v i, parseDeclaration (Tok.ident 0 ['a']) ([] ++ [Tok.block 1 .curly []]) ≠ .decl q n v i := by
+  intro q n v i h
+  simp [parseDeclaration, nextSignificant, isTrivia, isLit] at h
 
 end WR.Props.C06
